@@ -81,6 +81,11 @@ FreeSilent == Closure_Drop \/ (rt = "tokio" /\ Loop_Exit)
 \* the server side has already ended this connection: a client may still write into it or close it
 Gone(c) == cs[c] \in Unserved \cup {"closed"}
 
+\* a real client may close at any time (the model's Cli_Close excludes "while its own complete request is
+\* unanswered" only to keep the state space small)
+Trace_Close(c) == /\ ceof' = [ceof EXCEPT ![c] = TRUE]
+                  /\ UNCHANGED <<cfgVars, aVars, sVars, kVars, pVars, cs, inbuf, kind, wr, nreq, hVars>>
+
 Act(e) ==
   \/ e.ev = "Sig_Send" /\ Sig_Send /\ UNCHANGED got
   \/ e.ev = "Sig_Recv" /\ Sig_Recv /\ UNCHANGED got
@@ -98,8 +103,8 @@ Act(e) ==
   \/ e.ev = "Cli_SendRest" /\ e.c \in Clients /\ UNCHANGED got
        /\ IF Connected(e.c) THEN Cli_SendRest(e.c, e.k) ELSE Gone(e.c) /\ UNCHANGED vars
   \/ e.ev = "Cli_Close" /\ e.c \in Clients /\ UNCHANGED got
-       /\ IF (Connected(e.c) \/ cs[e.c] = "ws") /\ ~ceof[e.c] /\ inbuf[e.c] # "full"
-            THEN Cli_Close(e.c) ELSE UNCHANGED vars
+       /\ IF (Connected(e.c) \/ cs[e.c] \in {"ws", "run", "write"}) /\ ~ceof[e.c]
+            THEN Trace_Close(e.c) ELSE UNCHANGED vars
   \/ e.ev = "H_Read" /\ e.c \in Clients /\ ((e.k = "ws") <=> (kind[e.c] = "ws")) /\ H_Read(e.c) /\ UNCHANGED got
   \/ e.ev = "H_Finish" /\ e.c \in Clients /\ H_Finish(e.c) /\ UNCHANGED got
   \/ e.ev = "Cli_Resp" /\ e.c \in Clients /\ got[e.c] < served[e.c]
